@@ -11,7 +11,8 @@ item list satisfying the decidable predicate `Clean d` the tokenizer — regular
 matcher, hyphen detection, line counting — reads the spelling back as exactly these tokens
 (`scan_spell`, by induction over the matcher). Hence the token lists under two delimiter sets are
 equal up to the `source` field of tags and objects, and (the block parser and the compiler do not
-read that field outside raw blocks) the compiled templates are EQUAL.
+read that field; a raw block keeps the sources of its tokens, which since the repair
+`fixes/raw-comment-lexical` are one text token of literal bytes) the compiled templates are EQUAL.
 
 `Clean d items` (Proofs/E2ESpell.lean) says, in the words of `harness/tokitems.go`:
 * texts are non-empty, not adjacent, and no opening delimiter begins inside a text (not even one
@@ -22,6 +23,9 @@ read that field outside raw blocks) the compiled templates are EQUAL.
   begin with white space, do not end with white space or `-`, and do not end in a non-empty prefix of
   the tag-right delimiter;
 * the closing delimiter does not occur between the arguments and its own position;
+* after a tag named `raw` or `comment` a text item is the block's BODY: any bytes (delimiters included) in which
+  no end tag of the block begins, followed by the end tag — or there is no end tag ahead at all and the items
+  are read as usual;
 * a tag WITHOUT arguments has at most one white-space byte before its closing delimiter, and none
   before a right hyphen — see the two `example`s at the end: the pattern of `formTokenMatcher`
   reads `{% else  %}` as a tag with arguments `" "` and `{% else -%}` as a tag with arguments `"-"`
